@@ -36,6 +36,7 @@ inductive Exc where
 
 inductive Out (α : Type) where
   | vals (l : List Int)          -- amap: the list of function results
+  | optVals (l : List (Option Int))  -- amap whose per-element tasks were ended by GeneratorExit (value None): second layer only
   | elems (l : List α)           -- afilter / afilterfalse / asorted: a list of input elements
   | elem (x : α)                 -- amax / amin
   | pair (yes no : List α)       -- asift
